@@ -111,7 +111,18 @@ def proof_race_cases(tier, seed):
     cases = []
     for j in range(24 if tier == 'quick' else 300):
         script = [('hsub', 0), ('sub', 0, 0), ('sleep', 6)]
-        if j % 3 == 0:
+        if j % 6 == 3:
+            # blocks with several txs replaced by coinbase-only blocks; a request every second while the replacements are fetched,
+            # processed in memory and - after a slow daemon poll - flushed: some fall between processing and flush, when the
+            # hashes file still holds the orphaned hashes at those positions
+            fam = 'tx-small'
+            for _ in range(rng.randrange(1, 3)):
+                script += [('w', 'add'), ('w', 'add'), ('w', 'mine_all'), ('w', 'add'), ('w', 'mine_all'), ('sleep', 12)]
+                script += [('reorg_small', rng.randrange(1, 3))]
+                for _q in range(24):
+                    script += [('sleep', 1), ('qat', rng.choice(('get_merkle', 'id_from_pos_merkle', 'id_from_pos', 'tsc')), 'big')]
+                script += [('sleep', 20)]
+        elif j % 3 == 0:
             fam = 'tx'
             for _ in range(rng.randrange(1, 3)):
                 script += [('big', rng.choice((210, 240, 300))), ('sleep', 12)]
@@ -126,15 +137,16 @@ def proof_race_cases(tier, seed):
                 script += [('qat', rng.choice(('header_proof', 'header_proof', 'headers_proof')), 'tipcp') for _q in range(rng.randrange(2, 5))]
                 script += [('sleep', rng.choice((0, 0.05))), rng.choice((('rpc_reorg', rng.randrange(1, 4)), ('w', 'reorg'))), ('sleep', 45)]
                 script += [('qat', 'header_proof', 'tipcp'), ('sleep', 6)]
-        if fam == 'tx' and j % 2 == 0 or fam == 'hdr' and j % 4 == 1:
+        if fam == 'tx' and j % 2 == 0 or fam == 'hdr' and j % 4 == 1 or fam == 'tx-small' and j % 12 == 9:
             extra = {'query_at_backup': True}
         else:
             extra = {}
         cases.append({**extra, 'seed': rng.randrange(1 << 30), 'nclients': 1, 'nscripts': 3, 'judge': ['C11'], 'script': script, 'family': fam,
                       'flushkind': 'none', 'flushvec': None, 'policy': rng.choice(('random', 'lazy', 'eager')), 'p': 0.3, 'latency': None,
-                      'latency_by_method': ({'rest/block': (4, 8, 12), 'getblockhash': (2, 5)} if fam == 'hdr' else None),
+                      'latency_by_method': ({'rest/block': (4, 8, 12), 'getblockhash': (2, 5)} if fam == 'hdr' else
+                                            {'getblockcount': (3, 5, 8)} if fam == 'tx-small' else None),
                       'txindex': j % 4 < 2, 'prefetch': 100, 'n0': rng.choice((24, 36)), 'colls': 0, 'reorg_limit': rng.choice((4, 6)),
-                      'longpark': 0.8, 'longpark_start_under': (('fs_block_hashes',) if fam == 'hdr' else None)})
+                      'longpark': None if fam == 'tx-small' else 0.8, 'longpark_start_under': (('fs_block_hashes',) if fam == 'hdr' else None)})
     return cases
 
 
@@ -161,7 +173,7 @@ def run(tier, seed, replay=None):
                           'step:reorg': 20, 'step:forced_reorg': 15, 'merkle_cache_hits': 10, 'query:header_proof': 30, 'concurrent_queries_judged': 20000, 'queries_overlapping_a_truncation': 300,
                           'query:tsc': 30, 'step:big_block_replaced_by_big_block': 5,
                           'header_proofs_refused_by_short_read_guard': 2, 'jobs_held_at_start': 40,
-                          'reorgs_with_requests_sent_at_their_first_backup': 8}.items():
+                          'reorgs_with_requests_sent_at_their_first_backup': 8, 'step:reorg_to_smaller_blocks': 3}.items():
         rep.floor(name, c[name], minimum)
     return rep.finish(
         rule='the C07 scenarios (chains of 20-44 blocks, a quarter with a 200-420 tx block so that the cached per-block path runs) with a '
